@@ -32,9 +32,99 @@ ctx_t *child_ctx(ctx_t *x, int i)
 	return x->cctx_[i];
 }
 
+/* ---- children that block very many times (the generated programs keep their loops short) ----
+ * PT_CALL runs its child to completion inside one invocation of the parent however often the child blocks;
+ * PT_SPAWN relays every one of those blocks, unchanged, and continues the parent afterwards. */
+static long lc_n, lc_i, lc_blocks_seen;
+static int lc_kind; /* 0 yields, 1 waits, 2 alternates */
+static pt_state_t lc_child(pt_t *pt)
+{
+	PT_BEGIN(pt);
+	for (lc_i = 0; lc_i < lc_n; lc_i++) {
+		if (lc_kind == 0 || (lc_kind == 2 && (lc_i & 1)))
+			PT_YIELD();
+		else
+			PT_WAIT();
+	}
+	emit(7);
+	PT_END();
+}
+static pt_t lc_cpt;
+static pt_state_t lc_caller(pt_t *pt)
+{
+	PT_BEGIN(pt);
+	emit(1);
+	PT_CALL(&lc_cpt, lc_child(&lc_cpt));
+	emit(2);
+	PT_END();
+}
+static pt_state_t lc_spawner(pt_t *pt)
+{
+	PT_BEGIN(pt);
+	emit(1);
+	PT_SPAWN(&lc_cpt, lc_child(&lc_cpt));
+	emit(PT_CHILD_OK() ? 2 : 3);
+	PT_END();
+}
+static void long_children(void)
+{
+	static const long ns[] = { 0, 1, 2, 3, 7, 8, 15, 16, 17, 31, 32, 33, 63, 64, 65, 99, 100, 101, 127, 128, 129, 254, 255, 256, 257,
+				   511, 512, 513, 999, 1000, 1001, 1023, 1024, 1025, 4095, 4096, 4097, 9999, 10000, 10001, 32767, 32768, 32769,
+				   65534, 65535, 65536, 65537, 99999, 100000, 100001, 131071, 131072, 300000 };
+	for (unsigned a = 0; a < sizeof(ns) / sizeof(ns[0]); a++)
+		for (lc_kind = 0; lc_kind < 3; lc_kind++) {
+			lc_n = ns[a];
+			char key[64];
+			snprintf(key, sizeof(key), "long-child:n=%ld,kind=%d", lc_n, lc_kind);
+			vh_case_key(key);
+			vh_case_replay("--extra long");
+			vh_case_desc("child that blocks %ld times (%s) under PT_CALL and under PT_SPAWN", lc_n,
+				     lc_kind == 0 ? "yields" : lc_kind == 1 ? "waits" : "alternately");
+			/* PT_CALL */
+			pt_t pt;
+			PT_INIT(&pt);
+			neffects = 0;
+			pt_state_t r = lc_caller(&pt);
+			vh_evaluations++;
+			if (r != PT_EXITED || neffects != 3 || effects[0] != 1 || effects[1] != 7 || effects[2] != 2 || lc_i != lc_n)
+				vh_violation("long-child:PT_CALL-did-not-run-the-child-to-completion", vh_cur_replay,
+					     "a child that blocks %ld times: the calling thread returned %d after %d effects, the child had done %ld of its %ld rounds",
+					     lc_n, (int)r, neffects, lc_i, lc_n);
+			/* PT_SPAWN */
+			PT_INIT(&pt);
+			neffects = 0;
+			lc_blocks_seen = 0;
+			bool ok = true;
+			for (long inv = 0; ok; inv++) {
+				r = lc_spawner(&pt);
+				if (r == PT_EXITED || r == PT_FAILED)
+					break;
+				pt_state_t want = (lc_kind == 0 || (lc_kind == 2 && (inv & 1))) ? PT_YIELDED : PT_WAITING;
+				if (r != want || inv >= lc_n) {
+					vh_violation("long-child:PT_SPAWN-relay-wrong", vh_cur_replay,
+						     "a child that blocks %ld times: invocation %ld of the spawning thread returned %d, expected %d", lc_n, inv,
+						     (int)r, inv >= lc_n ? (int)PT_EXITED : (int)want);
+					ok = false;
+				}
+				lc_blocks_seen++;
+			}
+			vh_evaluations++;
+			if (ok && (r != PT_EXITED || lc_blocks_seen != lc_n || neffects != 3 || effects[1] != 7 || effects[2] != 2))
+				vh_violation("long-child:PT_SPAWN-did-not-finish", vh_cur_replay,
+					     "a child that blocks %ld times: %ld blocks relayed, final code %d, %d effects", lc_n, lc_blocks_seen, (int)r, neffects);
+			VH_COUNT("long_children_run");
+			VH_COUNT_N("long_children_blocks_relayed", (uint64_t)lc_blocks_seen);
+			vh_distinct(vh_mix(0x0808, (uint64_t)lc_n * 4 + (uint64_t)lc_kind));
+		}
+}
+
 int main(int argc, char **argv)
 {
 	vh_init(argc, argv, "pt_driver");
+	if (vh_opt.proc == 0 && (vh_opt.only_case < 0 || (vh_opt.extra && !strcmp(vh_opt.extra, "long"))))
+		long_children();
+	if (vh_opt.extra && !strcmp(vh_opt.extra, "long"))
+		return vh_finish();
 	uint64_t idx = 0;
 	for (unsigned s = 0; s < pt_nsets; s++)
 		for (unsigned k = 0; k < *pt_set_lens[s]; k++, idx++) {
